@@ -44,6 +44,7 @@ def analyse(case, io):
     flushed = {}        # (kind, idx) -> number of _flush runs
     sync_stack = []     # [(task, target)]
     pend_first = []     # [(yield id, [task leaves first scheduled by that yield, written order])]
+    reawaited = set()   # tasks awaited a second time (another yield, or a synchronous value()) before they started
     start_seq = []      # tasks in start order
     itemdone = {}       # cid -> count
     cur_flush = None    # (kind, idx, items, in_sched)
@@ -159,11 +160,15 @@ def analyse(case, io):
                 if created.get(c, {}).get("what") == "task" and c not in awaited and c not in started:
                     if c not in first:
                         first.append(c)
+                elif c in awaited and c not in started:
+                    reawaited.add(c)        # awaited again before it started: someone else may start it first
                 awaited.add(c)
             if last_yield[t][2] and len(first) >= 2:
                 pend_first.append((pos, first))
         elif n == "AuxSync":
             t, tgt = _t(a[0]), _t(a[1])
+            if tgt in awaited and tgt not in started:
+                reawaited.add(tgt)          # a synchronous value() starts it right away, whatever its place in a yield
             awaited.add(tgt)
             sync_stack.append((t, tgt))
         elif n == "EvGot":
@@ -437,7 +442,7 @@ def analyse(case, io):
     # start order of tasks first scheduled together in a list/tuple
     pos_of = {t: i for i, t in enumerate(start_seq)}
     for _, first in pend_first:
-        st = [t for t in first if t in pos_of]
+        st = [t for t in first if t in pos_of and t not in reawaited]
         if [pos_of[t] for t in st] != sorted(pos_of[t] for t in st):
             add("C03:start-order", "yielded-together-started-out-of-order",
                 "tasks %s were first scheduled by one yield but started in the order %s" % (
